@@ -143,5 +143,20 @@ impl ArcRtt {
     }
 }
 
+#[cfg(genmeta_gm_quic_verif)]
+impl ArcRtt {
+    /// Verification hook (read-only): `(latest_rtt, smoothed_rtt, rttvar, min_rtt, has_first_sample)`.
+    pub fn verif_state(&self) -> (Duration, Duration, Duration, Duration, bool) {
+        let rtt = self.0.lock().unwrap();
+        (
+            rtt.latest_rtt,
+            rtt.smoothed_rtt,
+            rtt.rttvar,
+            rtt.min_rtt,
+            rtt.first_rtt_sample.is_some(),
+        )
+    }
+}
+
 #[cfg(test)]
 mod tests {}
